@@ -78,6 +78,9 @@ func (u *Universe) ExtFail(s *Spec) string {
 	if k == "break" && len(s.Checks) == 0 {
 		return "exit"
 	}
+	if k == "slow" && s.TimeoutMS == 0 {
+		return "exit"
+	}
 	return k
 }
 
